@@ -23,10 +23,29 @@ RULE = ('cart case = version + label present/absent + five regions (random / 0xf
 ASSUMPTIONS = ['the Lua object is abstract in the theorems (its lexer/parser/echo are C06/C07/C08): the round-trip theorem '
                'assumes echo(lex(text)) = text for text that is already an echo and that the sanity re-lex succeeds',
                'Python int() on the (\\d+) group and "%s" % int are modelled by the stdlib Decimal conversions']
-PARTIAL = ''
+PARTIAL = ('the Lua object (lexer, parser, echo writer) is abstract in the C03 theorems: sanity re-lex, non-empty last chunk and '
+           'echo stability are hypotheses; the round trip of the code text through the real lexer is checked by the monitor only')
 TRUSTED = ['hand-written matchers for HEADER_VERSION_RE / SECTION_DELIM_RE (sources pinned; compared with re exhaustively on short strings)',
            'gen/kernels_p8file.py: the statement sequence of P8Formatter.to_file and the dispatch of from_file as data']
-CLAIM = None   # set below once the theorems exist
+CLAIM = dict(
+    text=("Theorems C03_roundtrip, C03_rewrite_identical, C03_ended_flag (Coq, closed under the global context) about a model "
+          "of P8Formatter.to_file / _get_raw_data_from_p8_file / from_file whose writer statement sequence, section dispatch "
+          "and header strings are regenerated from p8.py on every run: for every cart (any bytes in the five regions, any label "
+          "or none, any version >= 0, any echoed Lua text without a __section__-like line) the file is written, splits back into "
+          "exactly the written lines, the lexer is handed exactly the echoed text with a missing final newline supplied, and the "
+          "re-read cart has the same version, regions (music minus the one excepted bit) and label; re-writing it gives the "
+          "identical file. Built on the C15 (P8SCII/UTF-8) and C16 (per-section codecs) theorems. PARTIAL in one respect: the "
+          "Lua object is abstract in the theorems - that the sanity re-lex succeeds, that the echo writer's last chunk is not "
+          "empty, and echo_stable (the re-read object echoes the text it was lexed from) are explicit hypotheses owed by the "
+          "lexer stack (C06/C07); they are observed, not proved, here. Tie: model vs real to_file bytes and from_file results "
+          "(regions, label, version, the lines handed to the lexer, exceptions on malformed files), the two header regex "
+          "matchers vs re exhaustively on short strings, and holds_C03 (extracted from Spec/P8FileSpec.v) on the "
+          "implementation's own cart -> file -> cart' -> file'."),
+    note=("Trusted: Coq kernel+VM, gen/kernels_p8file.py (to_file statement sequence and from_file dispatch as data; fail-closed), "
+          "the hand-written regex matchers (sources pinned), readline/dict modelling, stdlib Decimal for int()/'%s', extraction, "
+          "OCaml glue. The lexer/parser/echo writer are abstract (hypotheses named in the theorem statements)."),
+    technique='Coq proof (round trip by induction over lines/sections on regenerated writer events; table side conditions by vm_compute) + correspondence + extracted monitor',
+    design_ref='8 C03')
 
 
 # ------------------------------------------------------------------ generators
